@@ -46,6 +46,7 @@ def forward(x):
 def normalize(x):
     return xp.sum(xp.abs(x) ** 2, axis=-2, keepdims=True) ** 0.5
 alg = sp.alg.PowerMethod(forward, self.mps, norm_func=normalize, max_iter=max_iter)
+super().__init__(alg, show_pbar=show_pbar)
 """
 
 REF_OUTPUT = """
@@ -70,8 +71,14 @@ def check(run, M, tier):
     run.assume("PowerMethod normalises by norm_func(y) for the same y (decided in C15 rule T5)")
     init = M.func("sigpy.mri.app.EspiritCalib.__init__")
     out = M.func("sigpy.mri.app.EspiritCalib._output")
-    vn, code = vn_paths(M, init, real=REAL, loop_hook=iter_once_loop)
-    _, ref = vn_ref(REF_INIT, model=M, func=init, real=REAL, loop_hook=iter_once_loop)
+    def hook(vn, call, st):
+        fn = call.func
+        if isinstance(fn, ast.Attribute) and fn.attr == "__init__" and isinstance(fn.value, ast.Call) and isinstance(fn.value.func, ast.Name) and fn.value.func.id == "super":
+            st.env["__super_args__"] = tuple(vn._as_term(vn.ev(a, st)) for a in call.args)
+            return NONE
+        return None
+    vn, code = vn_paths(M, init, real=REAL, loop_hook=iter_once_loop, call_hook=hook)
+    _, ref = vn_ref(REF_INIT, model=M, func=init, real=REAL, loop_hook=iter_once_loop, call_hook=hook)
     code = [o for o in code if o.status != "raise"]
     ref = [o for o in ref if o.status != "raise"]
     if len(code) != 1 or len(ref) != 1:
@@ -79,30 +86,40 @@ def check(run, M, tier):
         return
     c, r = code[0], ref[0]
 
+    # Local names of the constructor never matter: everything is read off the algorithm object handed to App.__init__ (its operator
+    # closure contains the Gram matrices, which contain the kernels, which contain the calibration matrix) and off self.* attributes.
+    def parts(side):
+        sup = side.env.get("__super_args__")
+        alg = sup[0] if isinstance(sup, tuple) and sup else None
+        d = {"alg": alg, "self.mps": side.env.get("self.mps")}
+        for role, kw in (("forward", "A"), ("normalize", "norm_func"), ("iterate", "x"), ("max_iter", "max_iter")):
+            d[role] = _kwarg_of(alg, "new:sigpy.alg.PowerMethod", kw)
+        for k in ("self.crop", "self.output_eigenvalue", "self.device"):
+            d[k] = side.env.get(k)
+        return d
+    pc, pr = parts(c), parts(r)
+
     def same(k):
-        a, b = c.env.get(k), r.env.get(k)
+        a, b = pc.get(k), pr.get(k)
         if isinstance(a, T.Poly) and isinstance(b, T.Poly):
             return T.eq(a, b)
         return a is not None and b is not None and T.enc(vn._as_term(a)) == T.enc(vn._as_term(b))
 
-    def show(k, side=c):
-        v = side.env.get(k)
+    def show(k, side=None):
+        v = (side or pc).get(k)
         return T.show(vn._as_term(v), 500) if v is not None else "nothing"
-    run.check(same("alg"), "H1", "EspiritCalib PowerMethod", init.loc(), "PowerMethod(forward, self.mps, norm_func=normalize, max_iter=max_iter) with forward = AHA @ x",
-              "EspiritCalib builds %s ; documented %s" % (show("alg"), show("alg", r)), stmt="H1:alg")
+    run.check(pc["alg"] is not None and same("iterate") and same("max_iter"), "H1",
+              "EspiritCalib PowerMethod", init.loc(), "App.__init__ receives PowerMethod(forward, self.mps, norm_func=normalize, max_iter=max_iter)",
+              "EspiritCalib hands %s to App.__init__ ; documented %s" % (show("alg"), show("alg", pr)), stmt="H1:alg")
     run.check(same("normalize") and same("self.mps"), "H2", "EspiritCalib normalize / iterate", init.loc(),
               "normalize(x) = sqrt(sum |x|^2, axis=-2, keepdims=True) on an iterate of shape ksp.shape[::-1] + (1,)",
-              "per-voxel norm is %s on an iterate %s ; documented %s on %s" % (show("normalize"), show("self.mps"), show("normalize", r), show("self.mps", r)), stmt="H2")
-    run.check(same("AHA") and same("forward"), "H4", "EspiritCalib Gram matrices", init.loc(), "AHA = (N / kernel_width^ndim) * sum_k a_k^H a_k with a_k from the centred ifft of the padded kernels",
-              "Gram matrices are %s ; documented %s" % (show("AHA"), show("AHA", r)), stmt="H4:AHA")
-    run.check(same("kernels") and same("mat"), "H4", "EspiritCalib calibration matrix", init.loc(), "blocks of the centred calibration region, SVD rows with S > thresh * S.max()",
-              "calibration/kernels are %s ; documented %s" % (show("kernels"), show("kernels", r)), stmt="H4:kernels")
+              "per-voxel norm is %s on an iterate %s ; documented %s on %s" % (show("normalize"), show("self.mps"), show("normalize", pr), show("self.mps", pr)), stmt="H2")
+    run.check(same("forward"), "H4", "EspiritCalib Gram matrices / calibration matrix", init.loc(),
+              "forward(x) = AHA @ x with AHA = (N / kernel_width^ndim) * sum_k a_k^H a_k, a_k from the centred ifft of the padded kernels, kernels = SVD rows with "
+              "S > thresh * S.max() of the block matrix of the centred calibration region",
+              "the power-iteration operator is %s ; documented %s" % (show("forward"), show("forward", pr)), stmt="H4:AHA")
     for k in ("self.crop", "self.output_eigenvalue", "self.device"):
         run.check(same(k), "H3", "EspiritCalib " + k, init.loc(), "%s stored from the argument" % k, "%s is %s" % (k, show(k)), stmt="H3:attr:" + k)
-    # super().__init__(alg, ...)
-    sup = [n for n in ast.walk(init.node) if isinstance(n, ast.Call) and isinstance(n.func, ast.Attribute) and n.func.attr == "__init__" and isinstance(n.func.value, ast.Call)]
-    run.check(len(sup) == 1 and sup[0].args and unparse(sup[0].args[0]) == "alg", "H1", "EspiritCalib App init", init.loc(), "the PowerMethod is the app's algorithm",
-              "EspiritCalib does not hand `alg` to App.__init__", stmt="H1:super")
     # ---- _output
     _, co = vn_paths(M, out, real=REAL)
     _, ro = vn_ref(REF_OUTPUT, model=M, func=out, real=REAL)
@@ -121,3 +138,15 @@ def check(run, M, tier):
     z = T.sym("z")
     lhs = T.mul(z, T.conj(T.div(z, T.abs_(z))))
     run.check(T.eq(lhs, T.abs_(z)), "H3", "identity z*conj(z/|z|) = |z|", out.loc(), "E3 proves coil 0 equals |m0| after the phase step", "normal form failed to prove z*conj(z/|z|) = |z|", stmt="H3:identity")
+
+
+def _kwarg_of(term, fname, kw):
+    a = term.single_atom() if isinstance(term, T.Poly) else None
+    if a is None or a[0] != "app" or a[1] != fname:
+        return None
+    for x in a[2]:
+        v = T.dec(x)
+        va = v.single_atom() if isinstance(v, T.Poly) else None
+        if va is not None and va[0] == "app" and va[1] == "kw:" + kw:
+            return T.dec(va[2][0])
+    return None
